@@ -22,4 +22,11 @@ def scopeEnd {β : Type} (pa : Option Nat) (f : Frame) (fx : Fx) (k : Fx → Fx 
   let r := f.scopeEnd pa fx
   if r.1 then (r.2, .panic) else k r.2
 
+/-- `a.alloc(x)`: the value held by the frame is moved into the arena (no destructor runs, nothing is copied out);
+the exclusive reference to it is what `Box(…)` wraps.  Running out of memory aborts and is outside this model. -/
+def alloc (x : Frame) (fx : Fx) : Fx × Outcome (List Cell) := (fx, .ok x.cells)
+
+/-- `vec.extend(iter)`: the items are moved to the end of the vector held by the frame -/
+def vecExtend (v : Frame) (items : List Cell) : Frame := { v with cells := v.cells ++ items }
+
 end Bump.RsB
